@@ -539,6 +539,210 @@ def gen_random(rng, index):
             "sample_salt": rng.randrange(1 << 30), "steps": g.steps}
 
 
+FALLBACK_FORMATS = ["%a %b %d %H:%M:%S %Y", "%A %d %B %Y", "%c"]
+ADD_TRUNC_KW = [{"hour_of_day": 6}, {"minute_of_hour": 30},
+                {"day_of_month": 15}, {"day_of_week": 3}, {"day_of_year": 45},
+                {"month_of_year": 3}, {"week_of_year": 10},
+                {"year_of_decade": 7}, {"year_of_century": 42},
+                {"second_of_minute": 15}]
+
+
+def all_seed_steps():
+    """Every seed value of every type, as 'mk' steps without ids."""
+    out = []
+    for text, parser, year, safe in TP_SEEDS:
+        out.append(({"k": "mk", "t": "tp", "text": text, "parser": parser},
+                    {"type": "tp", "trunc": False, "safe": safe,
+                     "far": not 1800 <= year <= 2200}))
+    for kw in TP_CTORS:
+        out.append(({"k": "mk", "t": "tp", "kw": kw},
+                    {"type": "tp", "trunc": False, "safe": False,
+                     "far": not 1800 <= kw["year"] <= 2200}))
+    for text in TRUNC_SEEDS:
+        for parser in ("trunc", "trunc_unknown"):
+            out.append(({"k": "mk", "t": "tp", "text": text,
+                         "parser": parser}, {"type": "tp", "trunc": True}))
+    for kw in TRUNC_CTORS:
+        out.append(({"k": "mk", "t": "tp", "kw": kw},
+                    {"type": "tp", "trunc": True}))
+    for text in DUR_SEEDS:
+        out.append(({"k": "mk", "t": "dur", "text": text},
+                    {"type": "dur", "mag": dur_mag(text)}))
+    for kw in DUR_CTORS:
+        out.append(({"k": "mk", "t": "dur", "kw": kw},
+                    {"type": "dur", "mag": 400}))
+    for kw in TZ_CTORS:
+        out.append(({"k": "mk", "t": "tz", "kw": kw}, {"type": "tz"}))
+    for text, bounded in REC_SEEDS:
+        out.append(({"k": "mk", "t": "rec", "text": text},
+                    {"type": "rec", "bounded": bounded}))
+    return out
+
+
+def gen_directed(rng, index):
+    """Directed family: ONE seed value X per trace, a fixed set of companion
+    values, and every operation of the table applied with X in every operand
+    position -- so that each (operation, operand shape) pair is exercised in
+    every check, not only when the random walk happens to reach it."""
+    seeds = all_seed_steps()
+    mk, meta = seeds[index % len(seeds)]
+    steps = []
+    n = [0]
+
+    def add(step):
+        n[0] += 1
+        step = dict(step, id="d%d" % n[0])
+        steps.append(step)
+        return step["id"]
+
+    def op(name, a, s=()):
+        return add({"k": "op", "m": name, "a": list(a), "s": list(s), "c": 0})
+
+    x = add(mk)
+    d1 = add({"k": "mk", "t": "dur", "text": "P1D"})
+    dm = add({"k": "mk", "t": "dur", "text": "P1M"})
+    d0 = add({"k": "mk", "t": "dur", "text": "PT0S"})
+    dw = add({"k": "mk", "t": "dur", "text": "P1W"})
+    dh = add({"k": "mk", "t": "dur", "text": "-PT36H"})
+    z1 = add({"k": "mk", "t": "tz", "kw": {"hours": 5, "minutes": 30}})
+    z0 = add({"k": "mk", "t": "tz", "kw": {"hours": 0, "minutes": 0}})
+    zu = add({"k": "mk", "t": "tz", "kw": {"unknown": True}})
+    p1 = add({"k": "mk", "t": "tp", "text": "2000-01-01T00:00:00Z",
+              "parser": "std"})
+    p2 = add({"k": "mk", "t": "tp", "text": "2001-W01-1T12:00:00+01:00",
+              "parser": "std"})
+    tr = add({"k": "mk", "t": "tp", "kw": {"truncated": True,
+                                           "day_of_month": 15}})
+    tt = add({"k": "mk", "t": "tp", "kw": {"truncated": True,
+                                           "hour_of_day": 6,
+                                           "minute_of_hour": 30}})
+    r1 = add({"k": "mk", "t": "rec", "text": "R5/2000-01-01T00Z/P1D"})
+    typ = meta["type"]
+    if typ == "tp" and not meta["trunc"]:
+        for attr in TP_NOARG:
+            op("tp." + attr, [x])
+        for d in (d1, dm, d0, dw, dh):
+            op("tp.add", [x, d])
+            op("tp.radd", [x, d])
+            op("tp.sub_dur", [x, d])
+            op("tp.hash_str", [x])
+        if not meta.get("far"):
+            op("tp.sub_tp", [x, p1])
+            op("tp.sub_tp", [p2, x])
+            op("tp.dto_diff", [x, p2])
+        for o in (p1, p2, x):
+            op("tp.cmp", [x, o])
+            op("tp.cmp", [o, x])
+        op("tp.cmp", [x, tr])
+        for z in (z1, z0, zu):
+            op("tp.to_time_zone", [x, z])
+        zx = op("tp.time_zone", [x])
+        op("tp.to_time_zone", [p1, zx])
+        for nmon in (0, 1, -13):
+            op("tp.add_months", [x], [nmon])
+        for fmt in STRF:
+            op("tp.strftime", [x], [fmt])
+        for fmt in STRF[:3] + FALLBACK_FORMATS:
+            op("tp.dto_format", [x], [fmt])
+        for off in ("P1D", "-PT1H", "P1M", "PT0S"):
+            op("tp.dto_shift", [x], [off])
+        op("tp.reparse", [x])
+        op("tp.get_time_zone_offset", [x, p2])
+        op("tp.get_time_zone_offset", [p2, x])
+        op("tp.get", [x], ["year"])
+        if meta.get("safe"):
+            for kw in ADD_TRUNC_KW:
+                op("tp.add_truncated", [x], [kw])
+            for t in (tr, tt):
+                op("tp.add_tp", [x, t])
+                op("tp.add_tp", [t, x])
+        for form in ("start_dur", "dur_end", "start_dur_minmax"):
+            op("rec.make", [x, d1, x, p2] if form == "start_dur_minmax"
+               else [x, d1], [form, 3])
+        made = op("rec.make", [x, d1], ["start_dur", 3])
+        op("rec.take", [made], [3])
+        op("rec.get_is_valid", [made, x])
+        op("rec.get_next", [made, x])
+        op("rec.get_first_after", [made, x])
+        op("rec.get_is_valid", [r1, x])
+        op("tp.hash_str", [x])
+    elif typ == "tp":
+        for attr in TP_NOARG:
+            op("tp." + attr, [x])
+        for o in (tr, tt, x):
+            op("tp.cmp", [x, o])
+            op("tp.cmp", [o, x])
+        op("tp.cmp", [x, p1])
+        for z in (z1, z0, zu):
+            op("tp.to_time_zone", [x, z])
+        for fmt in STRF[:4]:
+            op("tp.strftime", [x], [fmt])
+        op("tp.add_tp", [x, p1])
+        op("tp.add_tp", [p1, x])
+        op("tp.hash_str", [x])
+    elif typ in ("dur", "tz"):
+        for attr in (TZ_NOARG if typ == "tz" else DUR_NOARG):
+            op(typ + "." + attr, [x])
+        for d in (d1, dm, d0, dw, dh, z1, x):
+            op("dur.add", [x, d])
+            op("dur.add", [d, x])
+            op("dur.sub", [x, d])
+            op("dur.sub", [d, x])
+            op("dur.cmp", [x, d])
+            op("dur.cmp", [d, x])
+            op("dur.hash_str", [x])
+        for k in (0, 1, -1, 3):
+            op("dur.mul", [x], [k])
+            op("dur.rmul", [x], [k])
+        for k in (1, 2, -3, 0):
+            op("dur.floordiv", [x], [k])
+        op("dur.abs", [x])
+        if meta.get("mag", 5) <= MAX_ADD_DAYS:
+            op("tp.add", [p1, x])
+            op("tp.radd", [p2, x])
+            op("tp.sub_dur", [p1, x])
+            op("rec.add", [r1, x])
+            op("rec.radd", [r1, x])
+            op("rec.sub", [r1, x])
+        if typ == "tz":
+            op("tp.to_time_zone", [p1, x])
+            op("tp.to_time_zone", [p2, x])
+            op("tp.to_time_zone", [tt, x])
+        elif meta.get("mag", 5) <= 5000 and not mk.get("kw") and (
+                not mk.get("text", "-").startswith("-")) and (
+                mk.get("text") != "P0Y"):
+            made = op("rec.make", [p1, x], ["start_dur", 3])
+            op("rec.take", [made], [3])
+            op("rec.get_first_after", [made, p1])
+        op("dur.hash_str", [x])
+    else:
+        for attr in REC_NOARG:
+            op("rec." + attr, [x])
+        taken = op("rec.take", [x], [3])
+        op("rec.getitem", [x], [0])
+        op("rec.getitem", [x], [2])
+        op("rec.getitem", [x], [-1])
+        for probe in (taken + ".0", taken + ".1"):
+            for q in REC_ARG:
+                if q == "get_is_valid" and not meta["bounded"]:
+                    continue
+                op("rec." + q, [x, probe])
+        for d in (d1, d0, dw, dh):
+            op("rec.add", [x, d])
+            op("rec.radd", [x, d])
+            op("rec.sub", [x, d])
+        op("rec.cmp", [x, r1])
+        op("rec.cmp", [x, x])
+        op("rec.take", [x], [2])
+        op("rec.hash_str", [x])
+    return {"property": PROP, "kind": "directed", "index": index,
+            "mode": model.SPELLINGS[(index // len(seeds)) % len(
+                model.SPELLINGS)],
+            "zone": [0, 0, 0] if (index // len(seeds)) % 2 == 0 else
+            [-19800, -19800, 0],
+            "sample_salt": index, "steps": steps}
+
+
 # --------------------------------------------------------------------------
 # execution
 
@@ -606,6 +810,42 @@ def sub_objects(obj, acc=None, depth=0):
     return acc
 
 
+def shape_of(obj):
+    """A coarse operand shape, for the (operation x shape) coverage count."""
+    from metomi.isodatetime import data
+    if isinstance(obj, data.TimePoint):
+        tags = []
+        if obj.truncated:
+            tags.append("trunc")
+        else:
+            tags.append("cal" if obj.get_is_calendar_date() else (
+                "ord" if obj.get_is_ordinal_date() else "week"))
+        if obj.hour_of_day == 24:
+            tags.append("h24")
+        hod = obj.hour_of_day
+        if hod is not None and (int(hod) != hod or getattr(
+                obj, "_minute_of_hour", 0) is None):
+            tags.append("dec")
+        if obj.num_expanded_year_digits:
+            tags.append("x")
+        if obj.time_zone.unknown:
+            tags.append("utz")
+        elif obj.time_zone.hours or obj.time_zone.minutes:
+            tags.append("z")
+        if obj.dump_format:
+            tags.append("fmt")
+        return "tp:" + ",".join(tags)
+    if isinstance(obj, data.TimeZone):
+        return "tz:" + ("unknown" if obj.unknown else "known")
+    if isinstance(obj, data.Duration):
+        return "dur:" + ("weeks" if obj.get_is_in_weeks() else (
+            "exact" if obj.is_exact() else "nominal"))
+    if isinstance(obj, data.TimeRecurrence):
+        return "rec:f%s%s" % (obj.format_number, "" if obj.repetitions
+                              else "u")
+    return "other"
+
+
 def canon_plain(x):
     classes = lib_classes()
     if x is None or isinstance(x, (bool, int, str)):
@@ -634,6 +874,7 @@ class Sim(object):
         self.results = []
         self.sig = []
         self.uncovered = []
+        self.pairs = set()
 
     def count(self, key, n=1):
         self.counters[key] = self.counters.get(key, 0) + n
@@ -917,6 +1158,11 @@ class Sim(object):
                     break
             if name == "tp.add_tp":
                 self.count("probe.truncated_addition")
+            try:
+                self.pairs.add("%s|%s" % (name, "+".join(
+                    shape_of(o) for o in ops)))
+            except Exception:
+                pass
             raised = False
             try:
                 with kernel.guarded():
@@ -954,7 +1200,8 @@ def execute(trace):
     sim = Sim(trace).run()
     return {"results": sim.results, "violations": sim.violations,
             "counters": sim.counters, "sig": sim.sig,
-            "pool": len(sim.order), "uncovered": sim.uncovered}
+            "pool": len(sim.order), "uncovered": sim.uncovered,
+            "pairs": sorted(sim.pairs)}
 
 
 def check_trace_full(trace):
@@ -967,7 +1214,7 @@ def check_trace_full(trace):
         counters.get("probe.op_on_aliased_result", 0) > 0)
     return res["violations"], {
         "counters": counters, "digest": dig, "sig": sig,
-        "nontrivial": nontrivial, "states": [],
+        "nontrivial": nontrivial, "states": res["pairs"],
         "uncovered": res["uncovered"]}
 
 
@@ -977,7 +1224,10 @@ def check_trace(trace):
 
 def make_trace(job):
     kind, seed, index = job
-    return gen_random(kernel.run_rng(PROP, seed, index, kind), index)
+    rng = kernel.run_rng(PROP, seed, index, kind)
+    if kind == "directed":
+        return gen_directed(rng, index)
+    return gen_random(rng, index)
 
 
 def abbreviate(trace, n=10):
@@ -992,7 +1242,8 @@ def run_job(job):
     violations, info = check_trace_full(trace)
     res = {"index": "%s:%s" % (job[0], job[2]), "counters": info["counters"],
            "digest": info["digest"],
-           "sets": {"uncovered_api": info["uncovered"]},
+           "sets": {"uncovered_api": info["uncovered"],
+                    "states": info["states"]},
            "violations": [dict(v, job=list(job)) for v in violations]}
     res["counters"]["runs." + job[0]] = 1
     if info["nontrivial"]:
@@ -1025,14 +1276,19 @@ def shrink_candidates(trace):
 
 
 def jobs_for(tier, seed):
+    n_seeds = len(all_seed_steps())
+    n_dir = n_seeds if tier == "quick" else n_seeds * 7
     n = 2000 if tier == "quick" else 60000
-    return [("random", seed, i) for i in range(n)]
+    return [("directed", seed, i) for i in range(n_dir)] + [
+        ("random", seed, i) for i in range(n)]
 
 
 def extra_coverage(agg):
     return {"public_api_not_in_operation_table": sorted(
         agg.sets.get("uncovered_api", ())),
-        "pool_values_watched": agg.counters.get("pool_values_watched", 0)}
+        "pool_values_watched": agg.counters.get("pool_values_watched", 0),
+        "distinct_operation_x_operand_shape_combinations": len(
+            agg.sets.get("states", ()))}
 
 
 RULE = (
